@@ -789,6 +789,16 @@ def check_api(acc, sp):
     r = _rtx(sp)
     if r.version == 0:
         return      # version=0 means "default version" in the constructor: cannot be requested
+    forms = ['list'] + (['bytes'] if r.wit is not None and any(r.wit) else [])
+    for wform in forms:
+        _check_api_form(acc, sp, r, wform)
+
+
+def _check_api_form(acc, sp, r, wform):
+    """wform: the witness stack handed to add_input as a list of items, or as the serialized stack (item count and
+    length-prefixed items) - the form the wallet database and the transaction cache hand back."""
+    from bitcoinlib.transactions import Transaction
+    site = 'api' if wform == 'list' else 'api(witnesses=serialized_stack)'
     acc.n += 1
     det0 = {'spec_raw': RT.serialize(r, force_marker=True).hex()[:400]}
     try:
@@ -797,18 +807,21 @@ def check_api(acc, sp):
         for k, i in enumerate(r.vin):
             kw = {}
             if r.wit is not None and r.wit[k]:
-                kw['witnesses'] = list(r.wit[k])
+                if wform == 'list':
+                    kw['witnesses'] = list(r.wit[k])
+                else:
+                    kw['witnesses'] = codec.cs_encode(len(r.wit[k])) + b''.join(codec.cs_encode(len(w)) + w for w in r.wit[k])
             t.add_input(prev_txid=i['txid'][::-1], output_n=i['vout'], unlocking_script=i['script'],
                         sequence=i['seq'], **kw)
         for o in r.vout:
             t.add_output(o['value'], lock_script=o['script'])
     except Exception as e:
-        acc.label('api_refused_%s' % type(e).__name__)
+        acc.label('%s_refused_%s' % (site, type(e).__name__))
         return
     try:
         back = t.raw()
     except Exception as e:
-        acc.dev('api.raw()|raises_%s' % type(e).__name__, dict(det0, exc=repr(e)[:200]))
+        acc.dev('%s.raw()|raises_%s' % (site, type(e).__name__), dict(det0, exc=repr(e)[:200]))
         return
     acc.compared += 1
     want = r
@@ -819,9 +832,9 @@ def check_api(acc, sp):
         want = RT.RTx(want.version, r.vin, r.vout, r.locktime, None)
     C = [] if back == RT.serialize(want) else _diff_classes(want, back)
     for c in C:
-        acc.dev('api.raw()|%s' % c, dict(det0, got=back.hex()[:400]))
+        acc.dev('%s.raw()|%s' % (site, c), dict(det0, got=back.hex()[:400]))
     if not C:
-        acc.label('api_ok_v2_upgrade' if upgraded else 'api_ok')
+        acc.label('%s_ok_v2_upgrade' % site if upgraded else '%s_ok' % site)
 
 
 # -------------------------------------------------------------------------------------- subs (tx)
